@@ -241,6 +241,9 @@ type Config[K, V any] struct {
 	ValEq func(a, b V) bool
 	// Counter, if non-nil, is incremented by the comparator the collection was built with.
 	Counter *int64
+	// SetCompareHook installs a function that runs on every call of the counted comparator (only
+	// effective for counted configurations).
+	SetCompareHook func(func())
 	// PerCompare is how many times the counted function is called per key comparison of the
 	// tree (1 for a compare function, 2 at most for a less function).
 	PerCompare int
